@@ -272,25 +272,18 @@ def removeUnpaintedShapes : DocM Unit := do
     setRoot (Node.removeUid root u)
   modify (fun s => { s with cache := none })
 
-/-- `apply_style_attributes(inplace=True)` -/
+/-- `apply_style_attributes(inplace=True)`: flush, then parse every style attribute in the tree -/
 def applyStyleAttributes : DocM Unit := do
-  let s ← get
-  match s.cache with
-  | some (e :: es) =>
-    let l := e :: es
-    let mut out : List (Nat × List ShapeRec) := []
-    for (u, shapes) in l do
-      let mut ss : List ShapeRec := []
-      for sh in shapes do
-        let sh' ← liftE sh.applyStyle
-        ss := ss ++ [sh']
-      out := out ++ [(u, ss)]
-    setCache out
-    updateEtree
-  | _ => pure ()
+  updateEtree
   let root ← getRoot
   let r ← liftE (Cleanup.applyStyles root)
   setRoot r
+
+/-- `_clone()`: flush the pending shape edits, then deep-copy the tree; the model continues on the copy,
+    whose cache is empty -/
+def clone : DocM Unit := do
+  updateEtree
+  modify (fun s => { s with cache := none })
 
 end SvgObj
 end PicoSVG
